@@ -72,17 +72,33 @@ func NewLight() *Env {
 
 // NewFull creates an environment backed by a real simulation.Simulation.
 func NewFull() *Env {
-	ResetGlobals()
-	enterScratch()
-	sim := simulation.MakeBuilder().WithoutMonitoring().Build()
-	return &Env{Eng: sim.GetEngine().(*timing.SerialEngine), Sim: sim}
+	return NewFullWith(simulation.MakeBuilder())
 }
+
+// NullRecorder, when true (the default), gives simulations a data recorder
+// that stores nothing (through the verif hook VerifBuildWithRecorder): creating
+// a SQLite database per simulation does not scale across worker processes in
+// this sandbox. Checks about the recording itself set it to false.
+var NullRecorder = true
+
+type nullRecorder struct{ tables []string }
+
+func (r *nullRecorder) CreateTable(name string, _ any) { r.tables = append(r.tables, name) }
+func (r *nullRecorder) InsertData(string, any)          {}
+func (r *nullRecorder) ListTables() []string            { return r.tables }
+func (r *nullRecorder) Flush()                          {}
+func (r *nullRecorder) Close() error                    { return nil }
 
 // NewFullWith creates a full environment from a customised builder.
 func NewFullWith(b simulation.Builder) *Env {
 	ResetGlobals()
 	enterScratch()
-	sim := b.WithoutMonitoring().Build()
+	var sim *simulation.Simulation
+	if NullRecorder {
+		sim = b.WithoutMonitoring().VerifBuildWithRecorder(&nullRecorder{})
+	} else {
+		sim = b.WithoutMonitoring().Build()
+	}
 	return &Env{Eng: sim.GetEngine().(*timing.SerialEngine), Sim: sim}
 }
 
